@@ -9,4 +9,5 @@ MCProg == (1 :> <<[api |-> "set", key |-> "k1", val |-> "a", chunks |-> 1]>>) @@
 MCPre == {[key |-> "k1", val |-> "o1"]}
 MCKeyShards == ("k1" :> <<0, 1>>) @@ ("k2" :> <<1, 0>>)
 NoDebris == {}
+NoPreRO == {}
 ====
